@@ -144,6 +144,8 @@ pub enum Action {
     Detach,
     /// drop the debugger
     Drop,
+    /// SIGINT sent to the stopped debuggee from outside (stays pending until it is resumed)
+    SendSigint,
 }
 
 impl Action {
@@ -163,6 +165,7 @@ impl Action {
             Action::Unwatch(k, n) => format!("watch- #{k}{}", if *n { " (by number)" } else { "" }),
             Action::Detach => "detach".into(),
             Action::Drop => "drop".into(),
+            Action::SendSigint => "kill -INT (external)".into(),
         }
     }
 }
@@ -183,6 +186,9 @@ pub struct Model {
     pub watches: BTreeSet<usize>,
     pub gone: bool,
     pub restarts: u32,
+    /// an externally sent SIGINT is pending in the stopped debuggee
+    pub pending_sigint: bool,
+    pub sigints_sent: u32,
 }
 
 impl Model {
@@ -231,6 +237,7 @@ pub fn command_json(p: &Prog, cands: &[Cand], a: &Action) -> Value {
         }
         Action::Detach => json!({"op":"detach","then":"post_detach_check"}),
         Action::Drop => json!({"op":"drop"}),
+        Action::SendSigint => json!({"op":"kill","sig":2}),
     }
 }
 
@@ -355,6 +362,12 @@ fn apply_inner(p: &Prog, cands: &[Cand], m: &mut Model, a: &Action, k_idx: usize
                     f.push(Finding { sig: format!("{prop}:unwatch:failed"), detail: format!("[{}] {}: {res}", p.name(), hist(k)) });
                 }
             }
+            Action::SendSigint => {
+                if ok {
+                    m.pending_sigint = true;
+                    m.sigints_sent += 1;
+                }
+            }
             Action::Detach => {
                 m.gone = true;
                 if !ok {
@@ -409,6 +422,23 @@ fn apply_inner(p: &Prog, cands: &[Cand], m: &mut Model, a: &Action, k_idx: usize
                     return;
                 }
                 m.started = true;
+                if m.pending_sigint {
+                    // SIGINT stops the program (reported with the receiving thread) and is never
+                    // delivered: the position does not change apart from the breakpoint step-over
+                    m.pending_sigint = false;
+                    let kind = res["kind"].as_str().unwrap_or("");
+                    if !(ok && kind == "signal" && res["sig"].as_i64() == Some(2)) {
+                        if or.signals {
+                            f.push(Finding { sig: format!("{prop}:pending-SIGINT-not-reported:got-{}", if kind.is_empty() { res["err"].as_str().unwrap_or("?") } else { kind }), detail: format!("[{}] {}: a SIGINT was pending, the debugger reported {res}", p.name(), hist(k)) });
+                        }
+                        m.lost = true;
+                        return;
+                    }
+                    if let Some(j) = locate(t, m.idx.unwrap_or(0), &o["real"]) {
+                        m.idx = Some(j);
+                    }
+                    return;
+                }
                 let from = m.idx.map(|i| i + 1).unwrap_or(0);
                 let set = m.addr_set();
                 let mut expect = (from..t.steps.len()).find(|&j| set.contains(&t.steps[j].pc));
@@ -514,6 +544,17 @@ fn apply_inner(p: &Prog, cands: &[Cand], m: &mut Model, a: &Action, k_idx: usize
                     return;
                 }
                 let before = m.idx;
+                if m.pending_sigint {
+                    m.pending_sigint = false;
+                    let said_so = o["events"].as_array().map(|v| v.iter().any(|e| e["ev"] == "signal" && e["sig"].as_i64() == Some(2))).unwrap_or(false);
+                    if !said_so && or.signals {
+                        f.push(Finding { sig: format!("{prop}:pending-SIGINT-not-reported:during-{}", action_kind(a)), detail: format!("[{}] {}: a SIGINT was pending when the step started; no signal was reported ({res})", p.name(), hist(k)) });
+                    }
+                    if let Some(j) = locate(t, m.idx.unwrap_or(0), &o["real"]) {
+                        m.idx = Some(j);
+                    }
+                    return;
+                }
                 if res["err"] == "ProcessExit" {
                     m.exited = true;
                     m.idx = None;
@@ -859,6 +900,7 @@ fn action_kind(a: &Action) -> &'static str {
         Action::Unwatch(..) => "unwatch",
         Action::Detach => "detach",
         Action::Drop => "drop",
+        Action::SendSigint => "kill",
     }
 }
 
@@ -872,7 +914,7 @@ pub fn canon(m: &Model, last_obs: Option<&Value>) -> String {
         .map(|v| v.iter().filter_map(|e| e["addr"].as_u64()).collect())
         .unwrap_or_default();
     format!(
-        "{}|{}|{:?}|{:?}|{:x?}|{:x?}|{}|{}|{:?}|{}",
+        "{}|{}|{:?}|{:?}|{:x?}|{:x?}|{}|{}|{:?}|{}|{}|{}",
         m.started,
         m.exited,
         m.idx,
@@ -882,7 +924,9 @@ pub fn canon(m: &Model, last_obs: Option<&Value>) -> String {
         m.lost,
         m.sig_seen_upto,
         m.watches,
-        m.gone
+        m.gone,
+        m.pending_sigint,
+        m.sigints_sent
     )
 }
 
@@ -911,6 +955,7 @@ pub struct ExploreCfg {
     pub continue_after_start: bool,
     pub watches: usize,
     pub terminals: bool,
+    pub ext_sigint: bool,
     pub wall: Duration,
 }
 
@@ -952,6 +997,9 @@ pub fn actions_for(m: &Model, cands: &[Cand], cfg: &ExploreCfg) -> Vec<Action> {
                 v.push(Action::Watch(k));
             }
         }
+    }
+    if cfg.ext_sigint && m.started && !m.exited && !m.pending_sigint && m.sigints_sent < 2 {
+        v.push(Action::SendSigint);
     }
     if cfg.terminals {
         v.push(Action::Drop);
